@@ -158,6 +158,7 @@ type Worker struct {
 	lastViol  *Violation
 	stateDep  *Violation // a failure that did not repeat once the process's pools had been emptied
 	realViol  *Violation // the first finding of a real-binary arm
+	firstHist *Violation // the first failing case of this worker together with the whole-CLI runs that preceded it in the process
 	decode    func(json.RawMessage) (Case, error)
 	start     time.Time
 }
@@ -329,8 +330,38 @@ func (wk *Worker) minimise(decode func(json.RawMessage) (Case, error)) {
 	}
 }
 
+// needsEarlierRuns marks the signature of a failure reported together with the runs that preceded it.
+const needsEarlierRuns = " [after the earlier runs of the process]"
+
+// CaseHistory is a case together with the whole-CLI runs that the worker's process had executed
+// before it. It is the replay unit of a failure that needs state left behind by earlier runs.
+type CaseHistory struct {
+	History []World         `json:"hrsim_history"`
+	Inner   json.RawMessage `json:"inner"`
+	Prop    string          `json:"prop"`
+}
+
+func (h *CaseHistory) Eval(ob *Obs) []Finding {
+	for _, w := range h.History {
+		Exec(w)
+	}
+	def, ok := props[h.Prop]
+	if !ok {
+		panic(harnessFault{"history case of unknown property " + h.Prop})
+	}
+	c, err := def.decode(h.Inner)
+	if err != nil {
+		panic(harnessFault{"history case: " + err.Error()})
+	}
+	fs := c.Eval(ob)
+	for i := range fs {
+		fs[i].Sig += needsEarlierRuns
+	}
+	return fs
+}
+
 // flakyCases: per property, how to turn an unreproducible in-process failure into a history case.
-var flakyCases = map[string]func() Case{"C11": flakyC11, "C08": flakyC08}
+var flakyCases = map[string]func() Case{"C11": flakyC11, "C08": flakyC08, "C01": flakyC01}
 
 // recTB lets rapid.Check report into the worker instead of failing the process.
 type recTB struct {
@@ -419,6 +450,10 @@ func (wk *Worker) explore(gen func(t *rapid.T) Case) {
 						}
 						break
 					}
+					if wk.firstHist != nil {
+						wk.lastViol = wk.firstHist
+						break
+					}
 					panic(harnessFault{"rapid could not reproduce a failure (nondeterminism in the harness): " + m})
 				}
 			}
@@ -439,6 +474,10 @@ func (wk *Worker) evalCase(t *rapid.T, c Case, rs uint64) {
 	}
 	if len(wk.out.Samples) < 2 && len(raw) < 6000 {
 		wk.out.Samples = append(wk.out.Samples, raw)
+	}
+	var pre []World
+	if keepWorlds && wk.firstHist == nil {
+		pre = append(pre, recentWorlds...)
 	}
 	for _, f := range c.Eval(wk.ob) {
 		if wk.known[f.Sig] {
@@ -467,6 +506,12 @@ func (wk *Worker) evalCase(t *rapid.T, c Case, rs uint64) {
 			continue // while minimising, only the same violation class counts
 		}
 		raw2, _ := json.Marshal(c) // Eval may have narrowed the case (e.g. to the smallest failing offset)
+		if keepWorlds && wk.firstHist == nil && flakyCases[wk.Prop] == nil {
+			// should this failure turn out to need what earlier runs left behind in the process (it does not
+			// replay alone), those runs followed by this case are the replay unit
+			hraw, _ := json.Marshal(&CaseHistory{History: pre, Inner: raw, Prop: wk.Prop})
+			wk.firstHist = &Violation{Property: wk.Prop, Sig: f.Sig + needsEarlierRuns, Msg: f.Msg, Case: hraw, Seed: rs}
+		}
 		// Is the failure the case's own, or does it need what earlier cases left behind in this process?
 		// Two garbage collections empty every sync.Pool; the case is then evaluated once more. Only a
 		// failure that repeats is handed to the shrinker, so what it minimises replays on its own.
@@ -486,6 +531,8 @@ func (wk *Worker) evalCase(t *rapid.T, c Case, rs uint64) {
 				v := &Violation{Property: wk.Prop, Sig: wk.Prop + " outcome-depends-on-earlier-runs", Msg: "failed, but not when evaluated again after the process's pools were emptied: " + f.Sig + ": " + f.Msg, Case: raw2, Seed: rs}
 				if mk := flakyCases[wk.Prop]; mk != nil {
 					v.Case, _ = json.Marshal(mk())
+				} else if wk.firstHist != nil {
+					v = wk.firstHist
 				}
 				wk.stateDep = v
 			}
@@ -538,6 +585,9 @@ func (wk *Worker) finish() int {
 			if mk := flakyCases[wk.Prop]; mk != nil {
 				raw, _ := json.Marshal(mk())
 				hb, _ := json.MarshalIndent(Violation{Property: wk.Prop, Sig: wk.Prop + " outcome-depends-on-earlier-resolutions", Msg: "history of the worker that reported: " + o.Violation.Msg, Case: raw, Seed: o.Violation.Seed}, "", " ")
+				os.WriteFile(p+".history.json", hb, 0o644)
+			} else if wk.firstHist != nil && string(wk.firstHist.Case) != string(o.Violation.Case) {
+				hb, _ := json.MarshalIndent(wk.firstHist, "", " ")
 				os.WriteFile(p+".history.json", hb, 0o644)
 			}
 		}
